@@ -266,4 +266,12 @@ func runC06(c *Ctx) {
 		}
 	}
 
+
+	// ---------- error discipline (E8)
+	errDisciplineFor(c, "C06")
+
+	// ---------- R06.11 (shared with C15 R15.10)
+	c.Rule("R06.11", "E5", "transform controllers write through the live state: the existence check of Modify and the phase checks of Teardown are not answered by the read cache (a stale NotFound turns into a create conflict that is skipped and never retried)", 10)
+	liveStateRules(c, "R06.11")
+
 }
